@@ -324,6 +324,8 @@ def check(prog, res, tier):
             if p.outcome != 'return':
                 return [definite(f'to_enc_bytes raises {p.value!r}')] if p.outcome == 'raise' else []
             a = u.get('encrypt_args')
+            if a is None:
+                return [soft('to_enc_bytes does not go through self.encrypt(...): the ciphering is not followed by this rule')]
             if not a or len(a) != 2 or a[0] is not u['key'] or a[1] is not u.get('to_bytes_ret'):
                 return [definite(f'to_enc_bytes does not compute encrypt(key, self.to_bytes()): encrypt got {a!r}')]
             if p.value is not u.get('encrypt_ret'):
@@ -345,6 +347,8 @@ def check(prog, res, tier):
             if p.outcome != 'return':
                 return [definite(f'from_enc_bytes raises {p.value!r}')] if p.outcome == 'raise' else []
             a = u.get('decrypt_args')
+            if a is None:
+                return [soft('from_enc_bytes does not go through cls.decrypt(...): the deciphering is not followed by this rule')]
             if not a or len(a) != 2 or a[0] is not u['key'] or a[1] is not u['enc']:
                 return [definite(f'from_enc_bytes does not compute decrypt(key, enc_pin_block): decrypt got {a!r}')]
             fa = u.get('from_bytes_args')
